@@ -56,3 +56,11 @@
 (declare-fun unhex ((Array Int Int) Int Int) (Array Int Int))
 (assert (forall ((A (Array Int Int)) (o Int) (n Int) (i Int))
   (! (= (select (unhex A o n) i) (ite (and (<= 0 i) (< (* 2 i) n)) (+ (* 16 (hexval (select A (+ o (* 2 i))))) (hexval (select A (+ o (* 2 i) 1)))) 0)) :pattern ((select (unhex A o n) i)))))
+; overlay(M, lo, n, S): M with the window [lo, lo+n) replaced by S[0..n)
+(declare-fun overlay ((Array Int Int) Int Int (Array Int Int)) (Array Int Int))
+(assert (forall ((M (Array Int Int)) (lo Int) (n Int) (S (Array Int Int)) (i Int))
+  (! (= (select (overlay M lo n S) i) (ite (and (<= lo i) (< i (+ lo n))) (select S (- i lo)) (select M i))) :pattern ((select (overlay M lo n S) i)))))
+(assert (forall ((M (Array Int Int)) (lo Int) (n Int) (S (Array Int Int)))
+  (! (= (sub (overlay M lo n S) lo n) (sub S 0 n)) :pattern ((sub (overlay M lo n S) lo n)))))
+(assert (forall ((S (Array Int Int)) (o Int) (n Int))
+  (! (= (sub (sub S o n) 0 n) (sub S o n)) :pattern ((sub (sub S o n) 0 n)))))
